@@ -5,6 +5,7 @@ import (
 	"fmt"
 	"math"
 	"math/big"
+	"strings"
 
 	"mltwist/pkg/expr"
 	"mltwist/verifh/eng"
@@ -20,8 +21,36 @@ type c27Case struct {
 	W    int    `json:"w"`
 }
 
+// defined (named) integer types: legal type arguments of the generic constructors
+type (
+	nU8  uint8
+	nU16 uint16
+	nU32 uint32
+	nU64 uint64
+	nI8  int8
+	nI16 int16
+	nI32 int32
+	nI64 int64
+)
+
 func mkConst(ty string, v *big.Int, w expr.Width) expr.Const {
 	switch ty {
+	case "nu8":
+		return expr.NewConstUint(nU8(v.Uint64()), w)
+	case "nu16":
+		return expr.NewConstUint(nU16(v.Uint64()), w)
+	case "nu32":
+		return expr.NewConstUint(nU32(v.Uint64()), w)
+	case "nu64":
+		return expr.NewConstUint(nU64(v.Uint64()), w)
+	case "ni8":
+		return expr.NewConstInt(nI8(v.Int64()), w)
+	case "ni16":
+		return expr.NewConstInt(nI16(v.Int64()), w)
+	case "ni32":
+		return expr.NewConstInt(nI32(v.Int64()), w)
+	case "ni64":
+		return expr.NewConstInt(nI64(v.Int64()), w)
 	case "u8":
 		return expr.NewConstUint(uint8(v.Uint64()), w)
 	case "u16":
@@ -44,6 +73,22 @@ func mkConst(ty string, v *big.Int, w expr.Width) expr.Const {
 
 func fromConst(ty string, v *big.Int) expr.Const {
 	switch ty {
+	case "nu8":
+		return expr.ConstFromUint(nU8(v.Uint64()))
+	case "nu16":
+		return expr.ConstFromUint(nU16(v.Uint64()))
+	case "nu32":
+		return expr.ConstFromUint(nU32(v.Uint64()))
+	case "nu64":
+		return expr.ConstFromUint(nU64(v.Uint64()))
+	case "ni8":
+		return expr.ConstFromInt(nI8(v.Int64()))
+	case "ni16":
+		return expr.ConstFromInt(nI16(v.Int64()))
+	case "ni32":
+		return expr.ConstFromInt(nI32(v.Int64()))
+	case "ni64":
+		return expr.ConstFromInt(nI64(v.Int64()))
 	case "u8":
 		return expr.ConstFromUint(uint8(v.Uint64()))
 	case "u16":
@@ -64,14 +109,15 @@ func fromConst(ty string, v *big.Int) expr.Const {
 	panic(ty)
 }
 
-var tySize = map[string]int{"u8": 1, "u16": 2, "u32": 4, "u64": 8, "i8": 1, "i16": 2, "i32": 4, "i64": 8}
+var tySize = map[string]int{"u8": 1, "u16": 2, "u32": 4, "u64": 8, "i8": 1, "i16": 2, "i32": 4, "i64": 8,
+	"nu8": 1, "nu16": 2, "nu32": 4, "nu64": 8, "ni8": 1, "ni16": 2, "ni32": 4, "ni64": 8}
 
 func c27Run(c c27Case) *eng.Fail {
 	w := expr.Width(c.W)
 	switch c.Op {
 	case "make", "from":
 		v, _ := new(big.Int).SetString(c.Val, 10)
-		signed := c.Type[0] == 'i'
+		signed := strings.TrimPrefix(c.Type, "n")[0] == 'i'
 		if c.Op == "from" {
 			w = expr.Width(tySize[c.Type])
 		}
@@ -120,6 +166,18 @@ func c27Run(c c27Case) *eng.Fail {
 		size := tySize[c.Type]
 		p, stack := eng.Catch(func() {
 			switch c.Type {
+			case "nu8":
+				x, f := expr.ConstUint[nU8](k)
+				got = res{uint64(x), f}
+			case "nu16":
+				x, f := expr.ConstUint[nU16](k)
+				got = res{uint64(x), f}
+			case "nu32":
+				x, f := expr.ConstUint[nU32](k)
+				got = res{uint64(x), f}
+			case "nu64":
+				x, f := expr.ConstUint[nU64](k)
+				got = res{uint64(x), f}
 			case "u8":
 				x, f := expr.ConstUint[uint8](k)
 				got = res{uint64(x), f}
@@ -226,7 +284,7 @@ func c27Run(c c27Case) *eng.Fail {
 
 func init() {
 	checks["C27"] = eng.Check{
-		Rule: "NewConstUint/NewConstInt: ALL uint8,int8,uint16,int16 values x widths 1..4; uint32/int32/uint64/int64 boundary alphabets (every 2^k, 2^k-1, 2^k+1 and negatives) x widths 1..9, 15..17, 31..33, 39, 40, 63..65, 128, 200, 255; ConstFromUint/Int on the same values; ConstUint[uint8..uint64] on every constant of width 1..3 over bytes {00,01,7f,80,ff} and boundary constants of widths 4..9, and on constants of widths 17,32,33,64,255 with one non-zero byte at every position; NewConst with shorter/equal/longer source slices followed by mutation of the source, WithWidth to every width and every chain WithWidth(w1).WithWidth(w2). Non-trivial = make case where the value is outside the range of at least one smaller width (i.e. not in -128..127).",
+		Rule: "NewConstUint/NewConstInt: ALL uint8,int8,uint16,int16 values x widths 1..4; uint32/int32/uint64/int64 boundary alphabets (every 2^k, 2^k-1, 2^k+1 and negatives) x widths 1..9, 15..17, 31..33, 39, 40, 63..65, 128, 200, 255; ConstFromUint/Int on the same values; ConstUint[uint8..uint64] on every constant of width 1..3 over bytes {00,01,7f,80,ff} and boundary constants of widths 4..9, and on constants of widths 17,32,33,64,255 with one non-zero byte at every position; NewConst with shorter/equal/longer source slices followed by mutation of the source, the same through defined (named) integer types as type arguments; WithWidth to every width and every chain WithWidth(w1).WithWidth(w2). Non-trivial = make case where the value is outside the range of at least one smaller width (i.e. not in -128..127).",
 		Run: func(r *eng.Run) {
 			do := func(c c27Case) {
 				f := c27Run(c)
@@ -285,7 +343,15 @@ func init() {
 				for _, v := range []int{0, 1, 127, 128, 255, 256, 32767, 32768, 65535} {
 					do(c27Case{Op: "make", Type: "u16", Val: fmt.Sprint(v), W: w})
 					do(c27Case{Op: "make", Type: "i16", Val: fmt.Sprint(int16(uint16(v))), W: w})
+					do(c27Case{Op: "make", Type: "nu16", Val: fmt.Sprint(v), W: w})
+					do(c27Case{Op: "make", Type: "ni16", Val: fmt.Sprint(int16(uint16(v))), W: w})
+					do(c27Case{Op: "from", Type: "nu16", Val: fmt.Sprint(v)})
+					do(c27Case{Op: "from", Type: "ni16", Val: fmt.Sprint(int16(uint16(v)))})
 					if v < 256 {
+						do(c27Case{Op: "make", Type: "nu8", Val: fmt.Sprint(v), W: w})
+						do(c27Case{Op: "make", Type: "ni8", Val: fmt.Sprint(int8(uint8(v))), W: w})
+						do(c27Case{Op: "from", Type: "nu8", Val: fmt.Sprint(v)})
+						do(c27Case{Op: "from", Type: "ni8", Val: fmt.Sprint(int8(uint8(v)))})
 						do(c27Case{Op: "make", Type: "u8", Val: fmt.Sprint(v), W: w})
 						do(c27Case{Op: "make", Type: "i8", Val: fmt.Sprint(int8(uint8(v))), W: w})
 					}
@@ -296,7 +362,7 @@ func init() {
 			alpha := []byte{0x00, 0x01, 0x7f, 0x80, 0xff}
 			for w := 1; w <= 3; w++ {
 				for _, v := range ir.BytePatterns(expr.Width(w), alpha) {
-					for _, ty := range []string{"u8", "u16", "u32", "u64"} {
+					for _, ty := range []string{"u8", "u16", "u32", "u64", "nu8", "nu16", "nu32", "nu64"} {
 						do(c27Case{Op: "read", Type: ty, Val: v.Text(16), W: w})
 					}
 					do(c27Case{Op: "copy", Val: fmt.Sprintf("%0*x", 2*w, v), W: w})
